@@ -94,6 +94,16 @@ TReinited == IsEvent("Reinited") /\ Ev.a = 0 /\ m.pc = "out" /\ m.given = 0 /\ m
 TAppRaise == IsEvent("MemlimitSet") /\ Ev.b = 0 /\ AppRaise(Ev.a)
 \* lzma_get_check() right after a LZMA_*_CHECK notification: the Check ID of the Stream being decoded
 TGetCheck == IsEvent("GetCheck") /\ m.pc = "out" /\ m.lastRet = Tell /\ Ev.a = Cfg.check /\ UNCHANGED vars
+\* lzma_get_progress() between two calls: coder.mutex, then every thr.mutex in turn.  A worker publishes its positions
+\* only at the top of its loop, so the figures lag; they are required to be truthful: never more input than was
+\* consumed, never more output than the file holds, never going backwards, and exact once the decoder has finished.
+TProgress == /\ IsEvent("Progress") /\ m.pc = "out"
+             \* (after an error the model's input position is only a lower bound, see TRet)
+             /\ (Ev.a <= m.given - m.inAvail \/ (m.ended /\ IsErr(m.lastRet) /\ Ev.a <= m.given))
+             /\ Ev.b <= StL(FullLen, 2000000000).out
+             /\ Ev.a >= m.progIn /\ Ev.b >= m.progOut
+             /\ ((m.ended /\ m.lastRet = "STREAM_END") => (Ev.a = m.given - m.inAvail /\ Ev.b = m.delivered))
+             /\ m' = [m EXCEPT !.progIn = Ev.a, !.progOut = Ev.b] /\ UNCHANGED <<c, t>>
 TFreed == IsEvent("Freed") /\ m.pc = "freed" /\ UNCHANGED vars
 
 TWCheck == /\ IsEvent("WCheck")
@@ -124,7 +134,7 @@ TWFinCoder == /\ IsEvent("WFinCoder") /\ WFinCoder(Ev.w)
               /\ Ev.nsig >= 1
 
 Logged == TReset \/ TCall \/ TRet \/ TRW \/ TRWWake \/ TRWTimeout \/ TStop \/ TStopDone \/ TCreate \/ TTiSetup
-          \/ TTiStart \/ TTiPartial \/ TCopy \/ TPublish \/ TEndSignal \/ TEndJoin \/ TEndDone \/ TAppEnd \/ TAppReinit \/ TAppRaise \/ TGetCheck \/ TReinited \/ TFreed
+          \/ TTiStart \/ TTiPartial \/ TCopy \/ TPublish \/ TEndSignal \/ TEndJoin \/ TEndDone \/ TAppEnd \/ TAppReinit \/ TAppRaise \/ TGetCheck \/ TReinited \/ TFreed \/ TProgress
           \/ TWCheck \/ TWWake \/ TWDecode \/ TWPublish \/ TWFinThr \/ TWFreeIn \/ TWFinCoder
 
 \* Direct mode: the Block decoder runs in the main thread without any hook.  A call that completes the Block
